@@ -21,9 +21,9 @@ CASE_TIMEOUT = 60
 WALL = {"quick": 900, "thorough": 7200}
 REQUIRED = {"link_matches_expected": 300, "rej_order": 100, "rej_induced": 100, "rej_resname": 50, "rej_linktype": 10,
             "rej_nonedge": 3, "rej_pattern": 5, "overrides": 5, "dangling_matches": 20, "removals": 3,
-            "replacements": 5, "inter_residue_edges_checked": 200, "library_link_matches": 2000, "libraries": 6}
+            "replacements": 5, "inter_residue_edges_checked": 200, "library_link_matches": 2000, "libraries": 6, "node_keys_not_like_residue_ids": 500}
 LINK_OPTS = {"p_remove": 0.12, "p_nonedge": 0.25, "p_pattern": 0.2, "linktypes": True, "p_edge": 0.25,
-             "nres": [2, 2, 2, 3, 3, 4], "p_replace": 0.2, "p_version": 0.15, "p_attr": 0.2}
+             "nres": [2, 2, 2, 3, 3, 4], "p_replace": 0.2, "p_version": 0.15, "p_attr": 0.2, "p_partial_resname": 0.2}
 
 
 def plan(tier, seed):
@@ -44,12 +44,17 @@ def run_case(cid, rng, workdir):
         ev = PC.evaluate_library(case, workdir)
         if case["unsupported_links"]:
             bump(res, "library_cases_with_links_outside_the_reference")
-    elif cid[0] == "dangling":
-        case = paramcase.build(rng, profile="full", layouts=["itp_dangling"], nmin=2, nmax=8)
-        ev = PC.evaluate(case, workdir)
     else:
-        case = paramcase.build(rng, profile="full", link_opts=LINK_OPTS, max_links=5, nmin=2, nmax=7,
-                               layouts=["ff", "ff", "ff+itp", "itp+ff", "multi"])
+        if cid[0] == "dangling":
+            case = paramcase.build(rng, profile="full", layouts=["itp_dangling"], nmin=2, nmax=8)
+        else:
+            case = paramcase.build(rng, profile="full", link_opts=LINK_OPTS, max_links=5, nmin=2, nmax=7,
+                                   layouts=["ff", "ff", "ff+itp", "itp+ff", "multi"], p_shared_names=0.3)
+        if rng.random() < 0.3:
+            # node keys that are not numbered like the residue ids: 'relative residue order' is about ids
+            from .C13 import relabel
+            case["graph"], _mode = relabel(rng, case["graph"])
+            bump(res, "node_keys_not_like_residue_ids")
         ev = PC.evaluate(case, workdir)
     res["sig"] = sig_of([case["files"], case["graph"]])
     res["sample"] = case["descr"]
